@@ -29,7 +29,7 @@ EXPLANATION = (
     'parents are derived from its body (getters resolved); whenever a recompute call on node X reports a change and writes a field of the first kind, X '
     'itself is scheduled, and for a field of the second kind every child of X is scheduled, on every path on which the change is reported; every '
     'element of the recompute set is handed to the recomputation.'
-    ' Added later; (7) the guard of the parent recursion in updateScores holds for (start node, nothing changed). (8) every change of a pending mark is followed by updateScores (directly or through a function that always recomputes) on every path. (9) every write of a node\'s search result (score or best non-book move) is followed by updateScores on every path. (10) every child contributes to the negamax maximum (no iteration of the children loop skips the update).')
+    ' Added later; (7) the guard of the parent recursion in updateScores holds for (start node, nothing changed). (8) every change of a pending mark is followed by updateScores (directly or through a function that always recomputes) on every path. (9) every write of a node\'s search result (score or best non-book move) is followed by updateScores on every path. (10) every child contributes to the negamax maximum (no iteration of the children loop skips the update). (11) the error of the move into a node negates the child\'s value with negateScore, like the negamax equation.')
 UNDECIDED = ('that scores are at the fixed point of the negamax / path-error / expansion-cost equations for every history (value-level '
              'over a DAG); of the upward (negamax / expansion cost) scheduling only the start of the walk (C19.7) is decided, not the updateThis/updateChildren flags.')
 ASSUMPTIONS = ['Serializer::serialize / deSerialize are inverse for equal type lists (utility code outside this property)']
@@ -55,6 +55,7 @@ def run(fb, rep, tier):
     c8_pending_marks(fb, rep)
     c9_search_result_recomputed(fb, rep)
     c10_every_child_counts(fb, rep)
+    c11_move_error_uses_negation(fb, rep)
 
 
 def c4_set_ordering(fb, rep):
@@ -815,3 +816,35 @@ def c10_every_child_counts(fb, rep):
         rep.ob(clause, 'K2 must-pass-through', 'computeNegaMax: every child contributes to the maximum (no iteration of the children loop skips the update)', leak is None,
                R.site(f, sites[0][1]), '' if leak is None else 'iteration without the update: ' + ' -> '.join('B%s@%s' % (x, f.block_line(x)) for x in leak[-6:]), f.sname)
     rep.floor(clause, 'children loops that update the negamax value', n, 1)
+
+
+# ----------------------------------------------------------------------------- .11
+
+def c11_move_error_uses_negation(fb, rep):
+    """K10 sibling agreement on how a child's value is seen from its parent.  Scores are negated with BookNode::negateScore,
+    which also shifts mate scores by one ply; the negamax equation uses it.  The error of the move into a node - parent's
+    value minus the node's value seen from the parent - must use the same negation: a plain `+` agrees for centipawn
+    scores and is off by one for every node that holds a mate score (and trips the `delta >= 0` assertion for the best
+    child of a losing node)."""
+    clause = 'C19.11'
+    fs = [x for x in fb.funcs.values() if x.has_cfg and x.sname.endswith('BookNode::computePathError')]
+    if rep.need(clause, fs, 'BookNode::computePathError') is None:
+        return
+    f = fs[0]
+    n = 0
+    for b, i, e in f.events():
+        if e.get('k') != 'decl':
+            continue
+        for v in e.get('vars', []):
+            init = v.get('init')
+            if init is None:
+                continue
+            calls = [x for x in walk(init) if isinstance(x, dict) and x.get('k') == 'call' and cname(x).split('::')[-1] in ('getNegaMaxScore',)]
+            mems = [x for x in walk(init) if isinstance(x, dict) and x.get('k') == 'mem' and (x.get('f') or '').endswith('::negaMaxScore')]
+            if len(calls) + len(mems) < 2:
+                continue
+            n += 1
+            neg = [x for x in walk(init) if isinstance(x, dict) and x.get('k') == 'call' and cname(x).split('::')[-1] == 'negateScore' and
+                   any(isinstance(y, dict) and ((y.get('k') == 'call' and cname(y).split('::')[-1] == 'getNegaMaxScore') or (y.get('k') == 'mem' and (y.get('f') or '').endswith('::negaMaxScore'))) for y in walk(x))]
+            rep.ob(clause, 'K10 sibling agreement', 'computePathError: the difference of two nodes\' negamax values negates the child\'s value with negateScore', len(neg) == 1, R.site(f, e), show(init, 100), f.sname)
+    rep.floor(clause, 'differences of two negamax values in computePathError', n, 1)
